@@ -97,6 +97,12 @@ impl FdtX {
 
 /// One or more ALC packets (Compact No-Code, symbol size `e`) carrying `xml` as FDT instance `id`.
 /// `sct` = Some((ntp seconds, fraction)) adds EXT_TIME to every packet.
+thread_local! {
+    /// form of the EXT_TIME extension `fdt_packets` writes: 0 = SCT-High + SCT-Low, 1 = SCT-High only,
+    /// 2 = SCT-High + SCT-Low + ERT, 3 = SCT-High + SLC (RFC 5651 5.2.2: all valid ways to carry the sender time)
+    pub static SCT_FORM: std::cell::Cell<u8> = const { std::cell::Cell::new(0) };
+}
+
 pub fn fdt_packets(tsi: u64, id: u32, xml: &[u8], e: usize, sct: Option<(u32, u32)>, cenc: Option<u8>) -> Vec<Vec<u8>> {
     let e = e.max(1);
     let nsym = xml.len().div_ceil(e).max(1);
@@ -110,7 +116,12 @@ pub fn fdt_packets(tsi: u64, id: u32, xml: &[u8], e: usize, sct: Option<(u32, u3
             sp.exts.push(rfc::ext_cenc(c));
         }
         if let Some((s, f)) = sct {
-            sp.exts.push(rfc::ext_time(s, Some(f)));
+            sp.exts.push(match SCT_FORM.with(|c| c.get()) {
+                1 => rfc::ext_time(s, None),
+                2 => rfc::ext_time_full(s, Some(f), Some(3600), None),
+                3 => rfc::ext_time_full(s, None, None, Some(s.wrapping_sub(5))),
+                _ => rfc::ext_time(s, Some(f)),
+            });
         }
         sp.exts.push(rfc::fti_nocode(xml.len() as u64, e as u16, b));
         // locate symbol j in the partition
